@@ -256,7 +256,7 @@ package compiler
 // replace_reference: a reference matching From becomes a fresh reference to To; any other reference
 // is returned as it was; nothing pre-existing is written.
 //@ func (*ReplaceReference).processRef
-//@   property C15
+//@   property C15 C05
 //@   requires pass != nil && def.Kind == ast.KindRef
 //@   modifies nothing
 //@   ensures  noerr: result.1 == nil
@@ -431,26 +431,26 @@ package compiler
 // name prefixing: every object and every reference to an object (plain and constant references,
 // the entry point) gets the same prefix, so references keep resolving.
 //@ func (*PrefixObjectNames).processRef
-//@   property C05
+//@   property C05 C15
 //@   requires pass != nil && ref.Kind == ast.KindRef
 //@   modifies ref.Ref.ReferredType, spare-capacity
 //@   ensures  prefixed: result.1 == nil && ref.Ref.ReferredType == pass.Prefix + old(ref.Ref.ReferredType) && ref.Ref.ReferredPkg == old(ref.Ref.ReferredPkg)
 //@   ensures  same: result.0.Ref == ref.Ref && result.0.Kind == ref.Kind
 //
 //@ func (*PrefixObjectNames).processConstantRef
-//@   property C05
+//@   property C05 C15
 //@   requires pass != nil && ref.Kind == ast.KindConstantRef
 //@   modifies ref.ConstantReference.ReferredType, spare-capacity
 //@   ensures  prefixed: result.1 == nil && ref.ConstantReference.ReferredType == pass.Prefix + old(ref.ConstantReference.ReferredType) && ref.ConstantReference.ReferredPkg == old(ref.ConstantReference.ReferredPkg)
 //@   ensures  same: result.0.ConstantReference == ref.ConstantReference && result.0.Kind == ref.Kind
 //
 //@ func (*PrefixObjectNames).processObject
-//@   property C05
+//@   property C05 C15
 //@   requires pass != nil && visitor != nil
 //@   ensures  prefixed: result.1 == nil ==> result.0.Name == old(pass.Prefix) + object.Name && result.0.SelfRef.ReferredType == old(pass.Prefix) + object.Name && result.0.SelfRef.ReferredPkg == object.SelfRef.ReferredPkg
 //
 //@ func (*PrefixObjectNames).Process
-//@   property C05
+//@   property C05 C15
 //@   requires pass != nil && (forall s: int :: 0 <= s && s < len(schemas) ==> schemas[s] != nil)
 //@   ensures  entrypoint: result.1 == nil && old(pass.Prefix) != "" ==> (forall s: int :: 0 <= s && s < len(result.0) && old(schemas[s].EntryPoint) != "" ==> result.0[s].EntryPoint == old(pass.Prefix) + old(schemas[s].EntryPoint))
 //@   loop 0:
